@@ -289,7 +289,7 @@ func c12(run *ev.Run, tier string) {
 	ncfg, reps := 4, 5
 	gmps := []int{2, 16}
 	if tier == "thorough" {
-		ncfg, reps = 40, 50
+		ncfg, reps = 12, 20
 		gmps = []int{1, 2, 4, 8, 16}
 	}
 	if *flagCases > 0 {
